@@ -36,6 +36,8 @@ CLAIMED = {
                 note="E7, E11 (process table). NOT decided: 'never more than one child alive' across the watcher and event threads (process/process_watcher are not lock-protected), debounce timing beyond 'delivered after a timed wait expired', thread exit on stop() (liveness), ShellCommandTrick (battery only).", ref="4/C18"),
     "C12": dict(text="PARTIAL (typestate). Ghost per-descriptor open flags: os.read/os.write/os.close/poll/inotify_rm_watch require 'open'; lock invariant J of Inotify (not released => all three open; released => _closed; a read in flight is never released under its feet) proved at every release of close()/read_events(); close() releases only if no read is in flight and is idempotent; the reader releases in its second section iff closed meanwhile; Inotify.__init__ closes everything it opened when watch installation raises; InotifyBuffer starts no thread for a failed watch, close() = flag, wake-ups, join; emitter stop idempotent.",
                 note="E7/E8 (poll/os.read on open descriptors do not raise; os.pipe failure not injected). Rely of the reader = close()'s proved guarantee. Descriptor/thread counts over real cycles are measured only by the bounded battery. inotify_add_watch after a concurrent close() (third section of read_events) is outside the statement's list and only recorded.", ref="4/C12"),
+    "C08": dict(text="InotifyBuffer._group_events: region contract per batch event (append single / upgrade the first matching single MOVED_FROM in place / append pair with the first match pulled from the delay queue / single when nothing matches; every other position untouched; delay queue consulted at most once) and all pairs (moved_from, moved_to, one cookie); InotifyBuffer.run: every item except a single IN_IGNORED put exactly once in order, delayed iff unmatched MOVED_FROM, loop ends exactly on root IGNORED/DELETE_SELF; composed with the re-verified DelayedQueue put/get/remove contracts (C17).",
+                note="No-loss/no-duplication over a batch is the induction over the per-event region contract. Cross-batch pairing and timing clauses are the composition with C17 (rely/guarantee), not re-proved end to end. E8 cookies.", ref="4/C08"),
 }
 
 NOT_APPLICABLE = {
